@@ -13,6 +13,11 @@ package main
 //   c_store_nocb    sendAsync's futures.Store(...) is NOT guarded by `callback != nil`
 //                   (or its futures.Delete on the error path is not)
 //   c_pong_removes  the heartbeat processor calls RemoveMessageFuture
+//   c_store_first   in every function of pkg/remoting that signals a `.Done` channel the
+//                   assignment to `.Response` comes (textually, outside the select) before
+//                   the first signal and no assignment to `.Response` follows a signal
+//   c_ids_plain     SendSyncRequest and SendAsyncRequest build their RpcMessage with
+//                   `ID: int32(client.idGenerator.Inc())` (the id function of the model)
 //
 // Anything that is not found where it is expected is reported in
 // go_futures_unrecognised (a list of strings); the proof obligation requires the
@@ -240,6 +245,84 @@ func xlateFutures(repo, out string) {
 		}
 	}
 
+	// ---- c_store_first: order of payload and completion signal at every delivery site
+	storeFirst := true
+	sites := 0
+	for _, files := range [][]*ast.File{gettyFiles, procFiles} {
+		for _, f := range files {
+			for _, d := range f.Decls {
+				fd, ok := d.(*ast.FuncDecl)
+				if !ok || fd.Body == nil {
+					continue
+				}
+				var sends, stores []token.Pos
+				ast.Inspect(fd.Body, func(n ast.Node) bool {
+					switch x := n.(type) {
+					case *ast.SendStmt:
+						if strings.HasSuffix(printNode(fset, x.Chan), ".Done") {
+							sends = append(sends, x.Pos())
+						}
+					case *ast.AssignStmt:
+						for _, l := range x.Lhs {
+							if strings.HasSuffix(printNode(fset, l), ".Response") {
+								stores = append(stores, x.Pos())
+							}
+						}
+					}
+					return true
+				})
+				if len(sends) == 0 {
+					continue
+				}
+				sites++
+				first := sends[0]
+				for _, p := range sends {
+					if p < first {
+						first = p
+					}
+				}
+				before := false
+				for _, p := range stores {
+					if p < first {
+						before = true
+					} else {
+						storeFirst = false // payload written after (or inside the case of) a signal
+					}
+				}
+				if !before {
+					storeFirst = false
+				}
+			}
+		}
+	}
+	if sites == 0 {
+		storeFirst = false
+	}
+
+	// ---- c_ids_plain
+	idsPlain := true
+	for _, fn := range []string{"SendSyncRequest", "SendAsyncRequest"} {
+		fd := futuresFindFunc(gettyFiles, "GettyRemotingClient", fn)
+		if fd == nil {
+			bad("GettyRemotingClient.%s not found", fn)
+			idsPlain = false
+			continue
+		}
+		found := false
+		ast.Inspect(fd.Body, func(n ast.Node) bool {
+			if kv, ok := n.(*ast.KeyValueExpr); ok && printNode(fset, kv.Key) == "ID" {
+				found = true
+				if printNode(fset, kv.Value) != "int32(client.idGenerator.Inc())" {
+					idsPlain = false
+				}
+			}
+			return true
+		})
+		if !found {
+			idsPlain = false
+		}
+	}
+
 	// ---- c_pong_removes
 	pongRemoves := false
 	if fd := futuresFindFunc(procFiles, "clientHeartBeatProcessor", "Process"); fd == nil {
@@ -262,8 +345,8 @@ func xlateFutures(repo, out string) {
 	var sb strings.Builder
 	sb.WriteString("(* GENERATED by tools/xlate futures from the repository's working tree. Do not edit. *)\n")
 	sb.WriteString("From Coq Require Import String List.\nFrom SeataV Require Import Remoting.FuturesModel.\nImport ListNotations.\nOpen Scope string_scope.\n\n")
-	fmt.Fprintf(&sb, "Definition go_futures_cfg : cfg :=\n  {| c_cap := %d; c_nonblock := %s; c_tmo_removes := %s; c_store_nocb := %s; c_pong_removes := %s |}.\n\n",
-		capN, b(nonblock), b(tmoRemoves), b(storeNocb), b(pongRemoves))
+	fmt.Fprintf(&sb, "Definition go_futures_cfg : cfg :=\n  {| c_cap := %d; c_nonblock := %s; c_tmo_removes := %s; c_store_nocb := %s; c_pong_removes := %s;\n     c_store_first := %s; c_ids_plain := %s |}.\n\n",
+		capN, b(nonblock), b(tmoRemoves), b(storeNocb), b(pongRemoves), b(storeFirst), b(idsPlain))
 	sb.WriteString("Definition go_futures_unrecognised : list string := [")
 	for i, u := range unrec {
 		if i > 0 {
